@@ -27,7 +27,7 @@ QUICK_UNITS = [
     "src/Variogram/Vario.cpp", "src/Variogram/AVario.cpp",
     "src/Neigh/ANeigh.cpp", "src/Neigh/NeighBench.cpp", "src/Neigh/NeighMoving.cpp", "src/Neigh/NeighCell.cpp", "src/Basic/Rotation.cpp", "src/Basic/Tensor.cpp", "src/LinearOp/IProjMatrix.cpp", "src/Basic/Grid.cpp",
     "src/Anamorphosis/AnamEmpirical.cpp", "src/Anamorphosis/AnamHermite.cpp", "src/Simulation/CalcSimuTurningBands.cpp", "src/Basic/Indirection.cpp", "src/Skin/Skin.cpp",
-    "src/Spatial/SpatialIndices.cpp", "src/Stats/PCA.cpp", "src/Drifts/DriftList.cpp",
+    "src/Spatial/SpatialIndices.cpp", "src/Stats/PCA.cpp", "src/Drifts/DriftList.cpp", "src/Fractures/FracList.cpp",
 ]
 
 
@@ -1136,7 +1136,7 @@ def r10_6b(prog, chk):
     chk.floor("R10.6b", n, 4)
 
 
-GROW_CLASSES = ("Vario",)       # classes whose private helpers rebuild member lists at each calculation (confirmed by reading)
+GROW_CLASSES = ("Vario", "FracList")       # classes whose private helpers rebuild member lists at each calculation (confirmed by reading)
 
 
 def r10_8(prog, chk, classes=None, floor_n=10):
@@ -1150,7 +1150,7 @@ def r10_8(prog, chk, classes=None, floor_n=10):
         # every analysed class that accumulates into a subscripted member
         classes = sorted({f.cls for f in prog.funcs if f.cls and f.body is not None and any(
             x["k"] in ("Assign", "OpCall") and x.get("op") == "+=" and x.get("c") and x["c"][0] is not None and x["c"][0]["k"] in ("Index", "OpCall")
-            for x in f.walk())} | set(required))
+            for x in f.walk())} | set(required) | {k_ for k_ in GROW_CLASSES if any(f.cls == k_ and f.body is not None for f in prog.funcs)})
     for K in classes:
         meths = [f for f in prog.funcs if f.cls == K and f.body is not None]
         if not meths:
@@ -1177,7 +1177,8 @@ def r10_8(prog, chk, classes=None, floor_n=10):
                         acc.setdefault(fl, {}).setdefault(f.usr, []).append(x)
                 # a list that a PRIVATE helper appends to (push_back in a `_method`): the public methods that reach the helper rebuild the
                 # list, they must empty it first (public `addX` methods append on purpose and are not concerned)
-                if x["k"] == "MCall" and (x.get("callee") or "").split("::")[-1] in ("push_back", "emplace_back") and f.short.startswith("_") and K in GROW_CLASSES:
+                if x["k"] == "MCall" and (x.get("callee") or "").split("::")[-1] in ("push_back", "emplace_back") and K in GROW_CLASSES and \
+                        (f.short.startswith("_") or f.short.startswith("add")):
                     fl = root_field(call_obj(x))
                     if fl:
                         grow.setdefault(fl, {}).setdefault(f.usr, []).append(x)
@@ -1296,6 +1297,42 @@ def r10_8(prog, chk, classes=None, floor_n=10):
                        "content): the result depends on what was computed before", key="R10.8|%s/%d|%s" % (f.name, len(f.params), fl),
                        path=None if ok else g_.describe(w))
     chk.floor("R10.8", n, floor_n)
+
+
+def r10_10(prog, chk):
+    """R10.10 - what an optional argument switched on is switched off when the argument is absent.  A method that stores a member only
+    under `if (arg != nullptr)` (no else, no other assignment in the method) and reads that member afterwards keeps, when called
+    without the argument, what an EARLIER call stored: `Vario::_compute` kept the drift model of a previous calculation, so a plain
+    variogram computed afterwards on the same object was still the variogram of the residuals."""
+    from e1_paths import peel_cond
+    n = 0
+    for f in sorted(prog.funcs, key=lambda x: (x.file, x.line)):
+        if f.body is None or not f.cls or f.kind != "method":
+            continue
+        ptr = {p_["d"]: p_["n"] for p_ in f.params if p_["t"].strip().endswith("*")}
+        if not ptr:
+            continue
+        for x in f.walk():
+            if x["k"] != "If" or len(x["c"]) < 3 or x["c"][-1] is not None or x["c"][-3] is None or x["c"][-2] is None:
+                continue
+            core, pol = peel_cond(x["c"][-3])
+            if core is None or core["k"] != "DeclRefExpr" or core.get("d") not in ptr or pol is not True:
+                continue
+            inside = {z["i"] for z in walk(x)}
+            ms = sorted({y["c"][0]["n"] for y in walk(x["c"][-2]) if y["k"] in ("Assign", "OpCall") and y.get("op") == "=" and y["c"][0] is not None and
+                         y["c"][0]["k"] == "MemberExpr" and y["c"][0].get("mk") == "field"})
+            for m_ in ms:
+                others = [y for y in f.walk() if y["k"] in ("Assign", "OpCall") and y.get("op") == "=" and y["c"][0] is not None and
+                          y["c"][0]["k"] == "MemberExpr" and y["c"][0]["n"] == m_ and y["i"] not in inside]
+                reads = [y for y in f.walk() if y["k"] == "MemberExpr" and y["n"] == m_ and y["i"] not in inside]
+                n += 1
+                bad = not others and bool(reads)
+                if bad:
+                    chk.analysed(f)
+                chk.ob("R10.10", "%s: `%s`, stored when `%s` is given, is also defined when it is absent" % (f.name, m_, ptr[core["d"]]), f.loc(x), not bad,
+                       detail=None if not bad else "`%s` is assigned only under `if (%s != nullptr)` and read afterwards (line %s): a call without `%s` works with what an earlier "
+                       "call stored" % (m_, ptr[core["d"]], f.loc(reads[0]).split(":")[-1], ptr[core["d"]]), key="R10.10|%s|%s" % (f.name, m_), nontrivial=bad)
+    chk.floor("R10.10", n, 2)
 
 
 def r10_9(prog, chk):
@@ -1432,6 +1469,7 @@ def main(tier):
     r10_5c(prog, chk)
     r10_4b(prog, chk)
     r10_8(prog, chk)
+    r10_10(prog, chk)
     r10_9(prog, chk)
     r10_7(prog, chk, tier, units)
     return chk.finish()
